@@ -15,7 +15,7 @@ pub const DEV_NAMES: [&str; 3] = ["shp", "shx", "dbf"];
 #[derive(Clone, Copy, Debug, PartialEq, Eq, Serialize, Deserialize)]
 pub enum FaultKind {
     /// the operation returns Err(kind): 0 Other, 1 PermissionDenied, 2 StorageFull, 3 BrokenPipe,
-    /// 4 UnexpectedEof, 5 InvalidData
+    /// 4 UnexpectedEof, 5 InvalidData, 6 Unsupported, 7 OutOfMemory, .. (table in `err_kind`)
     Err(u8),
     /// a write returns Ok(0)
     Zero,
@@ -27,6 +27,9 @@ pub enum FaultKind {
     ErrMoved(u8),
 }
 
+/// Number of distinct error kinds `err_kind` knows (codes 0..N_ERR_KINDS-1).
+pub const N_ERR_KINDS: u8 = 40;
+
 pub fn err_kind(code: u8) -> ErrorKind {
     match code {
         1 => ErrorKind::PermissionDenied,
@@ -34,6 +37,42 @@ pub fn err_kind(code: u8) -> ErrorKind {
         3 => ErrorKind::BrokenPipe,
         4 => ErrorKind::UnexpectedEof,
         5 => ErrorKind::InvalidData,
+        // kinds a layered or unusual stream reports; none of them has a meaning of its own for
+        // the library or for std's adaptors (only Interrupted has, and that is FaultKind::Eintr)
+        6 => ErrorKind::Unsupported,
+        7 => ErrorKind::OutOfMemory,
+        8 => ErrorKind::InvalidInput,
+        9 => ErrorKind::TimedOut,
+        10 => ErrorKind::WouldBlock,
+        11 => ErrorKind::NotFound,
+        12 => ErrorKind::AlreadyExists,
+        13 => ErrorKind::WriteZero,
+        14 => ErrorKind::NotSeekable,
+        15 => ErrorKind::ConnectionReset,
+        16 => ErrorKind::ConnectionAborted,
+        17 => ErrorKind::NotConnected,
+        18 => ErrorKind::ConnectionRefused,
+        19 => ErrorKind::AddrInUse,
+        20 => ErrorKind::AddrNotAvailable,
+        21 => ErrorKind::ReadOnlyFilesystem,
+        22 => ErrorKind::FileTooLarge,
+        23 => ErrorKind::QuotaExceeded,
+        24 => ErrorKind::ResourceBusy,
+        25 => ErrorKind::Deadlock,
+        26 => ErrorKind::IsADirectory,
+        27 => ErrorKind::NotADirectory,
+        28 => ErrorKind::DirectoryNotEmpty,
+        29 => ErrorKind::StaleNetworkFileHandle,
+        30 => ErrorKind::HostUnreachable,
+        31 => ErrorKind::NetworkUnreachable,
+        32 => ErrorKind::NetworkDown,
+        33 => ErrorKind::CrossesDevices,
+        34 => ErrorKind::TooManyLinks,
+        35 => ErrorKind::InvalidFilename,
+        36 => ErrorKind::ArgumentListTooLong,
+        37 => ErrorKind::ExecutableFileBusy,
+        38 => ErrorKind::StorageFull,
+        39 => ErrorKind::Other,
         _ => ErrorKind::Other,
     }
 }
